@@ -67,6 +67,11 @@ def collect(ctx):
         p = drv_lfr.params(rng)
         p["num_mc"] = 100
         ts.append(L.from_lfr(drv_lfr.run(p, drv_lfr.regime_cells(rng, 100), rng.randrange(10 ** 6))))
+        # no burn-in at all (the edge of the legal range): the very first sample after a drift is tested, warnings and drifts follow each other back to
+        # back - each recommendation belongs to ITS epoch
+        p0 = dict(drv_lfr.params(rng), burn=0, sub=1, eta=rng.choice([0.5, 0.1, 0.9]), wl=rng.choice([0.5, 0.2]), dl=rng.choice([0.1, 0.05, 0.4]), num_mc=100,
+                  tracked=sorted(drv_lfr.RATES))
+        ts.append(L.from_lfr(drv_lfr.run(p0, drv_lfr.regime_cells(rng, 100), rng.randrange(10 ** 6))))
     for i in range(6 * k):
         p = drv_kdq.stream_params(rng)
         p["bootstrap_samples"] = 20
